@@ -213,18 +213,22 @@ func (x *Exec) assert(c Bool, label string) {
 	var nc, pos *Term
 	if c.S == nil {
 		if c.C {
+			x.nAssertConst++
 			return
 		}
 		nc, pos = x.tt.tru, x.tt.fls
 	} else {
 		pos = x.simp(c.S)
 		if pos.IsTrue() {
+			x.nAssertConst++
 			return
 		}
 		nc = x.tt.Not(pos)
 	}
 	res, m := x.solver.Check(x.pc, nc, x.symVars)
 	switch res {
+	case 0:
+		x.nAssertUnsat++
 	case 1:
 		x.recordViolation(label, false, m)
 	case -1:
